@@ -1,16 +1,20 @@
 import SqlObjVerif.Model.Hub
 import SqlObjVerif.Model.DrvUtil
-/-! Driver for C08 (stateless).  Fixed world: rows `1=10 2=20`; process binding = connection 0, thread 1 bound to
-    connection 1, thread 2 to connection 2, thread 0 unbound (uses the process binding).
-    Request: `<tid> <steps> <raise>` with steps `c<k>=<v>`, `u<k>=<v>`, `d<k>` joined by `,` (or `-`), raise `-` or
+/-! Driver for C08 (stateless).  Rows `1=10 2=20`; caller = thread 1 in hub configuration `cfg` (see `worldOf`).
+    Request: `<cfg> <autoCommit 1|0|X> <steps> <raise>` with steps `c<k>=<v>`, `u<k>=<v>`, `d<k>` joined by `,` (or `-`), raise `-` or
     `<n>:<E|K>:<id>`.
     Answer: `<outcome> | db <rows> | hub <t>:<level>:<conn>… | inuse a,b,c zombies n | collected inuse a,b,c db <rows>`. -/
 open SqlObjVerif SqlObjVerif.Hub SqlObjVerif.DrvUtil
 
-def world0 : World :=
+/-- caller = thread 1.  cfg: `T` thread binding only (connection 1), `P` process binding only (connection 0),
+    `TP` both, different (thread → 1, process → 0), `S` both the SAME connection 0.  Thread 2 is a bystander bound to
+    connection 2, thread 0 a bystander without thread binding. -/
+def worldOf (cfg : String) (ac : Bool) : World :=
+  let t1 : Option CRef := if cfg == "T" || cfg == "TP" then some (.base 1) else if cfg == "S" then some (.base 0) else none
+  let pr : Option CRef := if cfg == "T" then none else some (.base 0)
   ⟨fun k => if k = 1 then some 10 else if k = 2 then some 20 else none,
-   ⟨fun t => if t = 1 then some (.base 1) else if t = 2 then some (.base 2) else none, some (.base 0)⟩,
-   fun _ => 0, []⟩
+   ⟨fun t => if t = 1 then t1 else if t = 2 then some (.base 2) else none, pr⟩,
+   fun _ => 0, [], fun _ => ac, fun _ => ac⟩
 
 def parseStep (s : String) : Option Step :=
   match s.toList with
@@ -43,11 +47,19 @@ def showCRef : CRef → String
   | .base c => "b" ++ toString c
   | .tx c => "t" ++ toString c
 
+def showOpt : Option CRef → String
+  | some c => showCRef c
+  | none => "-"
+
+/-- both attributes separately, then what every thread resolves to -/
 def showHub (h : Hub) : String :=
+  " t1=" ++ showOpt (h.thread 1) ++ " p=" ++ showOpt h.proc ++
   String.join ((List.range 3).map fun t => match h.resolve t with
     | some (.thread, c) => " " ++ toString t ++ ":T:" ++ showCRef c
     | some (.process, c) => " " ++ toString t ++ ":P:" ++ showCRef c
     | none => " " ++ toString t ++ ":-")
+
+def usedConn (cfg : String) : Nat := if cfg == "T" || cfg == "TP" then 1 else 0
 
 def showInUse (w : World) : String := ",".intercalate ((List.range 3).map fun c => toString (w.inUse c))
 
@@ -57,14 +69,16 @@ def showOutcome : Outcome → String
 
 def handle (line : String) : String :=
   match words line with
-  | [tid, steps, rs] =>
-    match tid.toNat?, parseSteps steps, parseRaise rs with
-    | some tid, some steps, some ra =>
-      let r := doInTx world0 tid ⟨steps, ra, 7⟩
+  | [cfg, ac, steps, rs] =>
+    match parseSteps steps, parseRaise rs with
+    | some steps, some ra =>
+      let w := worldOf cfg (ac != "0")
+      let r := doInTx w 1 ⟨steps, ra, 7⟩
       let w2 := collect r.1
       showOutcome r.2 ++ " | db" ++ showRows r.1.db ++ " | hub" ++ showHub r.1.hub ++ " | inuse " ++ showInUse r.1
-        ++ " zombies " ++ toString r.1.zombies.length ++ " | collected inuse " ++ showInUse w2 ++ " db" ++ showRows w2.db
-    | _, _, _ => "bad-op"
+        ++ " zombies " ++ toString r.1.zombies.length ++ " | collected inuse " ++ showInUse w2
+        ++ " auto " ++ toString (w2.poolAuto (usedConn cfg)) ++ " db" ++ showRows w2.db
+    | _, _ => "bad-op"
   | _ => "bad-op"
 
 def main : IO Unit := loopPure handle
